@@ -57,6 +57,7 @@ impl<T: Read + Seek> E57Reader<T> {
             header.xml_length as usize,
         )?;
         let xml = String::from_utf8(xml_raw).read_err("Failed to parse XML as UTF8")?;
+        crate::xml::check_xml_shape(&xml)?;
         let document = Document::parse(&xml).invalid_err("Failed to parse XML data")?;
         let root = root_from_document(&document)?;
         let pointclouds = PointCloud::vec_from_document(&document)?;
